@@ -183,4 +183,3 @@ func cmdVerify(args []string) {
 	}
 	fmt.Printf("%d/%d discharged, %.1fs\n", nOK, len(res), time.Since(t0).Seconds())
 }
-
